@@ -1,8 +1,9 @@
 (** C16 — pip:try runs exactly the matching handler and contains the body's failure.
     Statements only; proofs are [exact <lemma of Proofs/Try.v>].
-    [trun false tb sched (tinit tb)] is the state of the closed try system (Model/Try.v: the pip:try
+    [trun MFixed tb sched (tinit tb)] is the state of the closed try system (Model/Try.v: the pip:try
     goroutine + the runner goroutines of the body, of everything it spawns and of the handlers) after
-    an arbitrary schedule, for the repaired code (flag [false]: every handler on a scope of its own).
+    an arbitrary schedule, for the current code (mode [MFixed]: every handler on a scope of its own,
+    errors reported to the surrounding scope in one final step; [MEarly] = b825941, [MShared] = before it).
     [wf tb]: the four names "…:body|finally|fail|success" are distinct and differ from every name
     spawned inside the bodies (guaranteed by the namespaces), handlers have no wait list, the
     separated/handler contexts are not the surrounding one.  [catched t = Some e]: the goroutine
@@ -13,15 +14,15 @@ Local Open Scope nat_scope.
 
 (** The try system does nothing the open runner system cannot do: the body task, the tasks it
     spawns and the handlers are ordinary tasks and every C14 theorem applies to them. *)
-Theorem C16_handlers_are_tasks : forall shared tb tsched,
-  exists sched, rs (trun shared tb tsched (tinit tb)) = run false sched (init (tb_par tb)).
+Theorem C16_handlers_are_tasks : forall mode tb tsched,
+  exists sched, rs (trun mode tb tsched (tinit tb)) = run false sched (init (tb_par tb)).
 Proof. exact try_sim. Qed.
 Print Assumptions C16_handlers_are_tasks.
 
 (** success: begins only if the body's scope had no error; in a final state without rejected
     handler submission it has begun if it is defined and the body's scope had no error. *)
 Theorem C16_success_iff : forall tb tsched h, wf tb -> tb_success tb = Some h ->
-  let t := trun false tb tsched (tinit tb) in
+  let t := trun MFixed tb tsched (tinit tb) in
   (forall ws, In (EBodyBegin (s_name h) ws) (log (rs t)) -> catched t = Some false) /\
   (tfinal t = true -> ~ rejected_any tb (rs t) -> catched t = Some false ->
    In (EBodyBegin (s_name h) []) (log (rs t))).
@@ -33,7 +34,7 @@ Qed.
 Print Assumptions C16_success_iff.
 
 Theorem C16_fail_iff : forall tb tsched h, wf tb -> tb_fail tb = Some h ->
-  let t := trun false tb tsched (tinit tb) in
+  let t := trun MFixed tb tsched (tinit tb) in
   (forall ws, In (EBodyBegin (s_name h) ws) (log (rs t)) -> catched t = Some true) /\
   (tfinal t = true -> ~ rejected_any tb (rs t) -> catched t = Some true ->
    In (EBodyBegin (s_name h) []) (log (rs t))).
@@ -45,7 +46,7 @@ Qed.
 Print Assumptions C16_fail_iff.
 
 Theorem C16_finally_always : forall tb tsched h e, wf tb -> tb_finally tb = Some h ->
-  let t := trun false tb tsched (tinit tb) in
+  let t := trun MFixed tb tsched (tinit tb) in
   tfinal t = true -> ~ rejected_any tb (rs t) -> catched t = Some e ->
   In (EBodyBegin (s_name h) []) (log (rs t)).
 Proof. intros tb tsched h e W E. exact (finally_always tb tsched W h e E). Qed.
@@ -59,7 +60,7 @@ Print Assumptions C16_finally_always.
     invariant that is not proved here.  The harness checks the full statement on every run. *)
 Theorem C16_after_body_partial : forall tb tsched a h c ws b, wf tb ->
   In (h, c) (hpairs tb) ->
-  log (rs (trun false tb tsched (tinit tb))) = a ++ EBodyBegin (s_name h) ws :: b ->
+  log (rs (trun MFixed tb tsched (tinit tb))) = a ++ EBodyBegin (s_name h) ws :: b ->
   exists ok, In (EFinished (nb tb) ok) b.
 Proof. intros tb tsched a h c ws b W. exact (after_body tb tsched W a h c ws b). Qed.
 Print Assumptions C16_after_body_partial.
@@ -70,14 +71,14 @@ Print Assumptions C16_after_body_partial.
     so the body's failure never reaches it; a rejected handler submission does mark it.
     PARTIAL: the converse "a handler that finished failed marks the surrounding scope" is checked
     by the harness only (the model forwards the handler scope's error in [TCollect]; the invariant
-    tying [coll] to the final state is not proved). *)
+    tying the final report to the handlers' own outcome is not proved). *)
 Theorem C16_containment_partial : forall tb tsched, wf tb ->
-  let t := trun false tb tsched (tinit tb) in
+  let t := trun MFixed tb tsched (tinit tb) in
   (tfinal t = true -> ctx_failed (tb_par tb) (rs t) = true ->
    rejected_any tb (rs t) \/
    exists h c x, In (h, c) (hpairs tb) /\ registered (s_name h) (tasks (rs t)) = true
                  /\ In x (tasks (rs t)) /\ t_ctx x = c /\ t_st x = Finished false)
-  /\ (rejected_any tb (rs t) -> ctx_failed (tb_par tb) (rs t) = true)
+  /\ (tfinal t = true -> rejected_any tb (rs t) -> ctx_failed (tb_par tb) (rs t) = true)
   /\ (forall x, In x (tasks (rs t)) ->
         t_ctx x <> tb_par tb /\ (t_name x = nb tb -> t_ctx x = tb_sep tb)).
 Proof.
@@ -88,10 +89,10 @@ Proof.
 Qed.
 Print Assumptions C16_containment_partial.
 
-(** Before b825941 (flag [true]: handlers directly on the surrounding scope) a failing success
+(** Before b825941 (mode [MShared]: handlers directly on the surrounding scope) a failing success
     handler cancelled the finally handler: it was started but executed none of its commands. *)
 Theorem C16_handler_cancel_refuted :
-  let t := trun true cancel_tb cancel_sched (tinit cancel_tb) in
+  let t := trun MShared cancel_tb cancel_sched (tinit cancel_tb) in
   tfinal t = true
   /\ In (EBodyBegin 2%N []) (log (rs t))
   /\ (forall i, ~ In (ECmdBegin 2%N i) (log (rs t)))
@@ -101,7 +102,7 @@ Proof. exact handler_cancel_refuted. Qed.
 Print Assumptions C16_handler_cancel_refuted.
 
 Theorem C16_handler_cancel_fixed :
-  let t := trun false cancel_tb cancel_sched (tinit cancel_tb) in
+  let t := trun MFixed cancel_tb cancel_sched (tinit cancel_tb) in
   tfinal t = true
   /\ In (ECmdEnd 2%N 1 true) (log (rs t))
   /\ map (fun x => (t_name x, t_st x)) (tasks (rs t))
@@ -110,11 +111,54 @@ Theorem C16_handler_cancel_fixed :
 Proof. exact handler_cancel_fixed. Qed.
 Print Assumptions C16_handler_cancel_fixed.
 
+(** 3f81e38: the try block fails the surrounding context only in its last step: whenever the
+    surrounding context has an error the goroutine is done and every started handler has finished ... *)
+Theorem C16_surrounding_fails_last : forall tb tsched, wf tb ->
+  let t := trun MFixed tb tsched (tinit tb) in
+  ctx_failed (tb_par tb) (rs t) = true ->
+  pc t = TDone /\
+  forall h c, In (h, c) (hpairs tb) -> registered (s_name h) (tasks (rs t)) = true ->
+              exists x ok, find_task (s_name h) (tasks (rs t)) = Some x /\ t_st x = Finished ok.
+Proof. intros tb tsched W. exact (surrounding_fails_last tb tsched W). Qed.
+Print Assumptions C16_surrounding_fails_last.
+
+(** ... so while a handler is still running the task manager's root context is healthy: no nested
+    submission of a handler is refused because of a sibling handler. *)
+Theorem C16_no_refusal_while_running : forall tb tsched h c x, wf tb ->
+  let t := trun MFixed tb tsched (tinit tb) in
+  In (h, c) (hpairs tb) -> find_task (s_name h) (tasks (rs t)) = Some x -> is_finished (t_st x) = false ->
+  ctx_failed (mroot (rs t)) (rs t) = false.
+Proof. intros tb tsched h c x W. exact (handler_running_root_healthy tb tsched W h c x). Qed.
+Print Assumptions C16_no_refusal_while_running.
+
+(** On b825941 (mode [MEarly]) the error of the failed finally handler was appended right after
+    its Wait: the still-running success handler's pip:run was then refused and its last command
+    never ran; the same schedule on the current model accepts it. *)
+Theorem C16_early_report_refuted :
+  let t := trun MEarly early_tb early_sched (tinit early_tb) in
+  tfinal t = true
+  /\ In (ESubmitted 4%N false) (log (rs t))
+  /\ ~ In (ECmdBegin 3%N 2) (log (rs t))
+  /\ map (fun x => (t_name x, t_st x)) (tasks (rs t))
+     = [(1%N, Finished true); (2%N, Finished false); (3%N, Finished false)].
+Proof. exact early_report_refuted. Qed.
+Print Assumptions C16_early_report_refuted.
+
+Theorem C16_early_report_fixed :
+  let t := trun MFixed early_tb early_sched (tinit early_tb) in
+  tfinal t = true
+  /\ In (ESubmitted 4%N true) (log (rs t)) /\ In (ECmdEnd 3%N 2 true) (log (rs t))
+  /\ map (fun x => (t_name x, t_st x)) (tasks (rs t))
+     = [(1%N, Finished true); (2%N, Finished false); (3%N, Finished true); (4%N, Finished true)]
+  /\ ctx_failed 1%N (rs t) = true.
+Proof. exact early_report_fixed. Qed.
+Print Assumptions C16_early_report_fixed.
+
 (** * Non-vacuity: the premises are met by a concrete run (body ok, finally + success defined,
     success fails: final, nothing rejected, catched = Some false, surrounding context failed) *)
 Example C16_premises :
   wf cancel_tb /\
-  let t := trun false cancel_tb cancel_sched (tinit cancel_tb) in
+  let t := trun MFixed cancel_tb cancel_sched (tinit cancel_tb) in
   tfinal t = true /\ catched t = Some false /\ pc t = TDone /\ hold t = false
   /\ In (EBodyBegin 3%N []) (log (rs t)) /\ ctx_failed (tb_par cancel_tb) (rs t) = true.
 Proof.
@@ -125,5 +169,5 @@ Qed.
 (** ... and no submission at all was rejected in that run (so [~ rejected_any] holds). *)
 Example C16_not_rejected :
   forallb (fun e => match e with ESubmitted _ false => false | _ => true end)
-          (log (rs (trun false cancel_tb cancel_sched (tinit cancel_tb)))) = true.
+          (log (rs (trun MFixed cancel_tb cancel_sched (tinit cancel_tb)))) = true.
 Proof. vm_compute. reflexivity. Qed.
